@@ -841,8 +841,11 @@ def conn_oracle(conf, data, obs):
         if status in REJECT_STATUSES and (i != len(resps) - 1 or not obs["closed"]):
             return "connection not closed after a %d rejection (response %d of %d)" % (status, i + 1, len(resps))
     if stop == "reject" and len(resps) == n_ok + 1:
-        status = resps[-1][0]
-        if not 400 <= status < 600:
+        status, echo = resps[-1]
+        # a handler that does not read the request body (static file, error page) answers before the chunked
+        # body is looked at: legitimate if nothing of the body was consumed (no echo) and the connection closes
+        early = why == "malformed chunk framing" and echo is None and obs["closed"]
+        if not 400 <= status < 600 and not early:
             return "message in the rejected class answered with %d (%s)" % (status, why)
         if not obs["closed"]:
             return "connection not closed after rejecting a message (%s)" % why
